@@ -76,6 +76,8 @@ func main() {
 		os.Exit(cmdGen(os.Args[2:]))
 	case "hashes":
 		os.Exit(cmdHashes(os.Args[2:]))
+	case "cold1":
+		os.Exit(cmdCold1(os.Args[2:]))
 	case "merge-evidence":
 		os.Exit(cmdMergeEvidence(os.Args[2:]))
 	case "list":
